@@ -147,7 +147,9 @@ def run(ctx):
         w = dict(x.split("=", 1) for x in c[2:].split()) if c.startswith("R ") else {}
         kind = n.split("-")[1]
         live.setdefault(kind, []).append((int(n.split("-")[2]), w.get("live"), w.get("res")))
-        if a != c:
+        if "unsupported(" in a and "unsupported(fuel)" not in a:
+            ctx.count("unsupported_by_model")       # e.g. element-wise array arithmetic: judged by the live-object count alone
+        elif a != c:
             disagreements.append((n, "final", a[:200], c[:200], ""))
     ctx.cov["churn"] = {k: v for k, v in live.items()}
     for kind, v in live.items():
